@@ -78,6 +78,29 @@ def fd_conflict(s):
     return False
 
 
+def self_conflicting(paths):
+    """a set of paths one of which is a proper directory prefix of another (a file and a directory of one name)"""
+    ps = sorted(paths)
+    return any(q.startswith(p + b"/") for p, q in zip(ps, ps[1:])) or \
+        any(q.startswith(p + b"/") for i, p in enumerate(ps) for q in ps[i + 1:i + 6])
+
+
+def snapshot_conflict(s):
+    """the staging area or some stored commit holds a file and a directory of the same name (Goit lets this
+    happen: add does not unstage a tracked file that has become a directory).  Such a snapshot cannot be
+    written to a work tree: a command that fails half-way through doing so is not 'refused for invalid arguments'."""
+    if self_conflicting(staged(s) or {}):
+        return True
+    for k, v in s.objects.items():
+        if v and v.startswith(b"commit "):
+            try:
+                if self_conflicting([p for p, _ in s.flatten(s.commit(k)["tree"])]):
+                    return True
+            except Exception:
+                continue
+    return False
+
+
 def identity(s):
     l = parse_cfg_file(s.lcfg) or {}
     g = parse_cfg_file(s.gcfg) or {}
@@ -992,7 +1015,7 @@ def o_c18(recs):
                 args = [x for x in st.argv[1:] if x not in (b"--", b"--staged")]
                 if any(i != j and (a == b_ or under(a, b_)) for i, a in enumerate(args) for j, b_ in enumerate(args)):
                     continue
-            if not unchanged(r.before, r.after, objects=False):
+            if not unchanged(r.before, r.after, objects=False) and not snapshot_conflict(r.before):
                 bad.append((i, "refused command changed %s" % what_changed(r.before, r.after)))
     return bad
 
